@@ -10,6 +10,7 @@ Bytes(f, n, salt) == CASE f = 0 -> [i \in 1..n |-> (i * 41 + salt * 59 + 5) % 25
                        [] f = 1 -> [i \in 1..n |-> 255]
                        [] f = 2 -> [i \in 1..n |-> 0]
                        [] f = 3 -> [i \in 1..n |-> IF i > n - 4 THEN 255 ELSE (i * 7 + salt) % 256]  \* ends ff ff ff ff
+                       [] f = 5 -> [i \in 1..n |-> IF i <= 16 THEN i ELSE IF i <= 32 THEN 0 ELSE i % 251]  \* 01..10, then a block of zeros, then more
 KeyB(k) == [j \in 1..16 |-> (k * 37 + j * 101 + j * j * (k + 3) + (k \div 256) * (j * 29 + 11)) % 256]
 \* an IV (16 bytes, so J0 = GHASH(IV)) chosen such that J0 = ff..ff fffffffe: the 32-bit counter wraps
 \* after two blocks.  J0 = ((IV.H) + L).H  =>  IV = ((J0.H^-1) + L).H^-1, H^-1 = H^(2^128-2).
